@@ -174,7 +174,7 @@ theorem absent_fields_accept (k : Clock) (loc : Option String) :
     containsClock { location := loc } k = true := by
   simp [containsClock, containsClockWith, inField]
 
-/-! ### the pinned `daysInMonth` (finding F9)
+/-! ### the pinned `daysInMonth` (finding F12)
 
 The pinned code obtains the month length from Go's date normalisation *in the
 interval's location*: `time.Date(y, m+1, 0, 12, 0, 0, 0, t.Location()).Day()`.
